@@ -194,6 +194,12 @@ func c01plan(tier string, seed int64) []run.Job {
 		extNodes = 5
 	}
 	jobs = append(jobs, enumJobs(extNodes, true, 4, 400)...)
+	// two mutually recursive nonterminals, exhaustively in a small scope
+	if tier == "thorough" {
+		jobs = append(jobs, enum2Jobs(4, 3, 8)...)
+	} else {
+		jobs = append(jobs, enum2Jobs(3, 3, 4)...)
+	}
 	return jobs
 }
 
